@@ -1199,6 +1199,207 @@ Proof.
     destruct (snd (deliver_from n t skip H toolong p (gp g p) i None)); cbn; auto.
 Qed.
 
+Hypothesis Hskip : skip = 0.
+Hypothesis H_inj : forall a b, H a = H b -> a = b.
+
+(* every party sits on the FIFO root channel (runs without channel switches) *)
+Definition NS (g : gst) := forall p, cur (gp g p) = 0 /\ fifo (gp g p) = true.
+(* the delivery counter and the log: delivered slots of sender w are exactly 1 .. deliver_s[w]-1 *)
+Definition DL (g : gst) :=
+  (forall q id w s v, In (q, (id, w, s), v) (glog g) -> id = 0 /\ 1 <= s < dls (gp g q) w) /\
+  (forall q w s, 1 <= s < dls (gp g q) w -> exists v, In (q, (0, w, s), v) (glog g)) /\
+  (forall q w, 1 <= dls (gp g q) w).
+Definition K1 (g : gst) := forall p dst x, In (p, dst, x) (gsent g) -> m_act x <> 1 -> m_act x <> 6 -> 0 <= m_j x < n /\ 1 <= m_s x.
+Definition K2 (g : gst) := forall p dst x, In (p, dst, x) (gsent g) -> m_act x = 2 -> forall i, 0 <= i < n -> In (p, i, x) (gsent g).
+Definition K3 (g : gst) := forall p dst x, In (p, dst, x) (gsent g) -> m_act x = 2 -> mbar (gp g p) (mtag x) <> None.
+(* r-send messages of a party on the FIFO channel: numbered 1 .. s, one payload per number, sent to everybody *)
+Definition U0 (g : gst) := forall j dst m, In (j, dst, m) (gsent g) -> m_act m = 1 -> m_id m = 0 /\ m_j m = j /\ 1 <= m_s m <= sq (gp g j).
+Definition U1 (g : gst) := forall j d1 m1 d2 m2, In (j, d1, m1) (gsent g) -> In (j, d2, m2) (gsent g) ->
+  m_act m1 = 1 -> m_act m2 = 1 -> mtag m1 = mtag m2 -> m_pay m1 = m_pay m2.
+Definition U2 (g : gst) := forall j, 0 <= sq (gp g j) /\
+  forall s, 1 <= s <= sq (gp g j) -> exists v, forall i, 0 <= i < n -> In (j, i, Msg 0 j s 1 v) (gsent g).
+
+Definition INV4a (g : gst) : Prop := NS g /\ DL g /\ K1 g /\ K2 g /\ K3 g /\ U0 g /\ U1 g /\ U2 g.
+
+Section OneStep4.
+Variables (g g' : gst) (p : Z) (st' : pst) (out : list (Z * msg)) (r : dres) (offer : option (Z * msg)).
+Hypothesis Hp : hon p.
+Hypothesis Q : qstep (gp g p) st' out r offer.
+Hypothesis Q2 : pstep2 (gp g p) st' out r offer.
+Hypothesis Q3 : pstep3 (gp g p) st' out offer.
+Hypothesis Q4 : pstep4 (gp g p) st' out r offer.
+Hypothesis Ecur : cur st' = cur (gp g p).
+Hypothesis Efifo : fifo st' = fifo (gp g p).
+Hypothesis DR : dres_ok skip (gp g p) st' r.
+Hypothesis BC : bcfact p (gp g p) st' out.
+Hypothesis CR : forall l m, offer = Some (l, m) -> can_recv n byz g p l m = true.
+Hypothesis Egp : gp g' = updZ (gp g) p st'.
+Hypothesis Esent : gsent g' = gsent g ++ tagged p out.
+Hypothesis Elog : glog g' = glog g ++ log_of p r.
+Hypothesis NSg : NS g.
+
+Let smono4 := sent_mono g g' p out Esent.
+Let scases4 := state_cases g g' p st' Egp.
+Let snew4 := snew g g' p out Esent.
+
+Lemma in_tagged : forall dst x, In (dst, x) out -> In (p, dst, x) (gsent g').
+Proof. intros dst x I. rewrite Esent. apply in_or_app. right. unfold tagged. apply in_map_iff. exists (dst, x). auto. Qed.
+
+Lemma p_range : 0 <= p < n.
+Proof. unfold honest, is_party in Hp. b2p. lia. Qed.
+
+Lemma NS_step : NS g'.
+Proof.
+  intros q. destruct (scases4 q) as [[-> E]|[N E]]; rewrite E; [|apply NSg].
+  destruct (NSg p) as [C F]. split; congruence.
+Qed.
+
+(* what a step does to the delivery counters (fifo_skip = 0) *)
+Lemma dls_step : (r = RNone \/ r = RThrow) /\ dls st' = dls (gp g p) \/
+  exists who s v, r = RDeliver who (0, who, s) v /\ s = dls (gp g p) who /\ dls st' = updZ (dls (gp g p)) who (s + 1).
+Proof.
+  destruct (NSg p) as [C F]. unfold dres_ok in DR. destruct r as [|who tg v|].
+  - left. split; [auto|apply DR; exact Hskip].
+  - right. destruct DR as ((s & -> & _ & S) & _ & D). rewrite C. exists who, s, v.
+    split; [reflexivity|]. split; [apply S; auto|]. rewrite (D Hskip). rewrite <- (S F Hskip). reflexivity.
+  - left. split; [auto|apply DR; exact Hskip].
+Qed.
+
+Lemma DL_step : DL g -> DL g'.
+Proof.
+  intros (A & Bq & C). unfold DL. split; [|split].
+  - intros q id w s v I. rewrite Elog in I. apply in_app_or in I. destruct I as [I|I].
+    + destruct (A _ _ _ _ _ I) as (-> & R). split; auto.
+      destruct (scases4 q) as [[-> E]|[N E]]; rewrite E; auto.
+      destruct dls_step as [[_ D]|(who & s0 & v0 & _ & -> & D)]; rewrite D; auto.
+      unfold updZ. destruct (w =? who) eqn:X; b2p; subst; lia.
+    + apply log_of_in in I. destruct I as (-> & who & Er).
+      destruct dls_step as [[[D|D] _]|(who' & s0 & v0 & Er' & -> & D)]; try congruence.
+      rewrite Er in Er'. inversion Er'; subst. split; auto.
+      destruct (scases4 p) as [[_ E]|[N _]]; [|congruence]. rewrite E, D, updZ_same. pose proof (C p who'). lia.
+  - intros q w s R. destruct (scases4 q) as [[-> E]|[N E]]; rewrite E in R.
+    + destruct dls_step as [[_ D]|(who & s0 & v0 & Er & -> & D)]; rewrite D in R.
+      * destruct (Bq _ _ _ R) as (v & I). exists v. rewrite Elog. apply in_or_app. auto.
+      * unfold updZ in R. destruct (w =? who) eqn:X; b2p.
+        -- subst w. destruct (Z.eq_dec s (dls (gp g p) who)) as [->|NE].
+           ++ exists v0. rewrite Elog, Er. apply in_or_app. right. cbn. auto.
+           ++ destruct (Bq p who s) as (v & I); [lia|]. exists v. rewrite Elog. apply in_or_app. auto.
+        -- destruct (Bq _ _ _ R) as (v & I). exists v. rewrite Elog. apply in_or_app. auto.
+    + destruct (Bq _ _ _ R) as (v & I). exists v. rewrite Elog. apply in_or_app. auto.
+  - intros q w. destruct (scases4 q) as [[-> E]|[N E]]; rewrite E; auto.
+    destruct dls_step as [[_ D]|(who & s0 & v0 & _ & -> & D)]; rewrite D; auto.
+    unfold updZ. destruct (w =? who) eqn:X; b2p; subst; auto. pose proof (C p who). lia.
+Qed.
+
+Lemma K1_step : K1 g -> K1 g'.
+Proof.
+  intros IH q dst x I N1 N6. apply snew4 in I. destruct I as [I|[-> I]]; [eapply IH; eauto|].
+  destruct Q4 as (W & _). eapply W; eauto.
+Qed.
+
+Lemma K2_step : K2 g -> K2 g'.
+Proof.
+  intros IH q dst x I A i Ri. apply snew4 in I. destruct I as [I|[-> I]].
+  - apply smono4. eapply IH; eauto.
+  - destruct Q4 as (_ & _ & Ea & _). destruct (Ea _ _ I A) as (Al & _). apply in_tagged. apply Al. apply range_in. exact Ri.
+Qed.
+
+Lemma mbar_keep : forall tg, mbar (gp g p) tg <> None -> mbar st' tg <> None.
+Proof. intros tg N. destruct Q2 as (Mc & _). destruct (Mc tg) as [E|(x & E & _)]; congruence. Qed.
+
+Lemma K3_step : K3 g -> K3 g'.
+Proof.
+  intros IH q dst x I A. apply snew4 in I. destruct I as [I|[-> I]].
+  - destruct (scases4 q) as [[-> E]|[N E]]; rewrite E; [apply mbar_keep|]; eapply IH; eauto.
+  - destruct (scases4 p) as [[_ E]|[N _]]; [|congruence]. rewrite E.
+    destruct Q4 as (_ & _ & Ea & _). destruct (Ea _ _ I A) as (_ & v & M & _). congruence.
+Qed.
+
+Lemma U0_step : U2 g -> U0 g -> U0 g'.
+Proof.
+  intros A2 IH j dst m I A. apply snew4 in I. destruct I as [I|[-> I]].
+  - destruct (IH _ _ _ I A) as (E1 & E2 & E3). repeat split; auto; try lia.
+    destruct (scases4 j) as [[-> E]|[N E]]; rewrite E; [|lia].
+    destruct BC as [[S _]|(v & _ & S)]; [lia|]. destruct (NSg p) as [_ F]. rewrite (S F). lia.
+  - destruct (scases4 p) as [[_ E]|[N _]]; [|congruence]. rewrite E.
+    destruct BC as [[_ S]|(v & -> & S)]; [exfalso; eapply S; eauto|].
+    apply in_to_all in I. subst m. cbn. destruct (NSg p) as [C F]. rewrite (S F), C.
+    destruct (A2 p) as [P0 _]. repeat split; auto; lia.
+Qed.
+
+Lemma U1_step : U0 g -> U1 g -> U1 g'.
+Proof.
+  intros A0 IH j d1 m1 d2 m2 I1 I2 A1 A2 T. apply snew4 in I1. apply snew4 in I2.
+  assert (OLDNEW : forall mo mn d d', In (p, d, mo) (gsent g) -> m_act mo = 1 -> In (d', mn) out -> m_act mn = 1 ->
+                   mtag mo = mtag mn -> False).
+  { intros mo mn d d' Io Ao In_ An Tn. destruct (A0 _ _ _ Io Ao) as (_ & _ & S).
+    destruct BC as [[_ X]|(v & -> & X)]; [eapply X; eauto|].
+    apply in_to_all in In_. subst mn. unfold mtag in Tn. cbn in Tn. inversion Tn.
+    destruct (NSg p) as [_ F]. rewrite (X F) in *. lia. }
+  destruct I1 as [I1|[-> I1]], I2 as [I2|[E2 I2]].
+  - eapply IH; eauto.
+  - subst j. exfalso. eapply OLDNEW; eauto.
+  - exfalso. eapply (OLDNEW m2 m1); eauto.
+  - destruct BC as [[_ X]|(v & -> & X)]; [exfalso; eapply X; eauto|].
+    apply in_to_all in I1. apply in_to_all in I2. congruence.
+Qed.
+
+Lemma U2_step : U2 g -> U2 g'.
+Proof.
+  intros IH j. destruct (IH j) as [P0 Al]. destruct (scases4 j) as [[-> E]|[N E]]; rewrite E.
+  - destruct BC as [[S _]|(v & Eo & S)].
+    + rewrite S. split; auto. intros s R. destruct (Al s R) as (v & Av). exists v. intros i Ri. apply smono4. auto.
+    + destruct (NSg p) as [C F]. rewrite (S F). split; [lia|]. intros s R.
+      destruct (Z.eq_dec s (sq (gp g p) + 1)) as [->|NE].
+      * exists v. intros i Ri. apply in_tagged. rewrite Eo, (S F), C. unfold to_all. apply in_map_iff. exists i.
+        split; auto. apply range_in. exact Ri.
+      * destruct (Al s) as (v' & Av); [lia|]. exists v'. intros i Ri. apply smono4. auto.
+  - split; auto. intros s R. destruct (Al s R) as (v & Av). exists v. intros i Ri. apply smono4. auto.
+Qed.
+
+Lemma INV4a_onestep : INV4a g -> INV4a g'.
+Proof.
+  intros (_ & A1 & A2 & A3 & A4 & A5 & A6 & A7). unfold INV4a.
+  split; [apply NS_step|]. split; [apply DL_step; auto|]. split; [apply K1_step; auto|]. split; [apply K2_step; auto|].
+  split; [apply K3_step; auto|]. split; [apply U0_step; auto|]. split; [apply U1_step; auto|apply U2_step; auto].
+Qed.
+End OneStep4.
+
+Lemma INV4a_init : INV4a ginit.
+Proof.
+  unfold INV4a. split; [|split; [|split; [|split; [|split; [|split; [|split]]]]]].
+  - intros p. cbn. auto.
+  - unfold DL. split; [|split].
+    + intros q id w s v [].
+    + intros q w s R. cbn in R. lia.
+    + intros q w. cbn. lia.
+  - intros p dst x [].
+  - intros p dst x [].
+  - intros p dst x [].
+  - intros j dst m [].
+  - intros j d1 m1 d2 m2 [].
+  - intros j. cbn. split; [lia|]. intros s R. lia.
+Qed.
+
+Lemma INV4a_step : forall g e, noswitch e = true -> INV4a g -> INV4a (gstep g e).
+Proof.
+  intros g e NSe I.
+  destruct (gstep_cases4 g e NSe) as [E|(p & st' & out & r & offer & Hp & Q & Q2 & Q3 & Q4 & C1 & C3 & DR & BC & CR & E1 & E2 & E3)].
+  - rewrite E. exact I.
+  - eapply INV4a_onestep; eauto. destruct I as (X & _). exact X.
+Qed.
+
+(* induction over runs without channel switches *)
+Lemma grun_ind_ns : forall (P : gst -> Prop), P ginit -> (forall g e, noswitch e = true -> P g -> P (gstep g e)) ->
+  forall es, forallb noswitch es = true -> P (run es).
+Proof.
+  intros P P0 PS es. unfold grun.
+  assert (G : forall l g, forallb noswitch l = true -> P g -> P (fold_left gstep l g)).
+  { induction l as [|e r IH]; cbn; auto. intros g F Pg. apply andb_true_iff in F. destruct F as [F1 F2]. apply IH; auto. }
+  intros F. apply G; auto.
+Qed.
+
+
 (* ---- the full liveness clause of C14, as a statement (NOT proved; totality_digest above is the part that is) -------- *)
 Definition kind_of (a : Z) : fkind :=
   if a =? 1 then FSend else if a =? 2 then FEcho else if a =? 3 then FReady else if a =? 4 then FRequest else FAnswer.
